@@ -259,6 +259,9 @@ def run(run, tier, loadcfg):
     run.explanation = __doc__
     run.assumptions = ['amplitude abstraction (C01/C02); floating-point rounding ignored', 'Fixed ring buffer = indexable delay line (C06)', 'Range(0..m).fold visits n = 0..m-1 in order']
     for cfg in ['std-debug'] + (['nostd'] if tier == 'thorough' else []):
-        cx = Ctx(loadcfg(cfg))
+        fx_ = loadcfg(cfg, optional=(cfg == 'nostd'))
+        if fx_ is None:
+            continue
+        cx = Ctx(fx_)
         check_state(run, cx, cfg)
         check_interpolate(run, cx, cfg)
